@@ -4,6 +4,8 @@ import (
 	"encoding/json"
 	"flag"
 	"fmt"
+	"io"
+	"log"
 	"os"
 	"strings"
 )
@@ -23,6 +25,7 @@ func writeJSON(path string, v interface{}) {
 }
 
 func main() {
+	log.SetOutput(io.Discard) // kustomize prints deprecation warnings through the std logger
 	if len(os.Args) < 2 {
 		fmt.Fprintln(os.Stderr, "usage: vh corr|oracle|list ...")
 		os.Exit(2)
